@@ -88,7 +88,9 @@ def env_tasks(tier, seed):
             if t[0] in ('truncate', 'short', 'shapes', 'nested-short',
                         'hostile-names') or
             (t[0] == 'rewrite' and len(t) == 3)]
-    return pick + [('debug-logging',) + t for t in pick]
+    strict = [('warnings-as-errors',) + t for t in base
+              if t[0] == 'truncate'] + [('warnings-as-errors', 'intact')]
+    return pick + [('debug-logging',) + t for t in pick] + strict
 
 
 def run(task, ctx):
